@@ -7,12 +7,15 @@
      D15_step  an inbound message other than Logon that passes the integrity check arrives in
                LOGON_INITIAL_SENT (the initiator has sent its Logon, no reply yet)
      D25_step  the same in LOGON_INITIAL_RECV, where an acceptor stays when its Logon handling raised
-     D27       a non-numeric MsgSeqNum raises ValueError out of _process_message (C11_garbled_seqnum_refuted)
+     (D27 - a non-numeric MsgSeqNum raised ValueError out of _process_message - is repaired in the code:
+      C11_garbled_seqnum_rejected)
    C11_integrity_* assume `sendable w`: the Logout can be written and journaled (writer present, no outbound
    journal row numbered next_num_out, number within SQLite's range); ledger D20 breaks that
    (Out_inv of C05 implies it; D12 is repaired in the code). *)
 From Coq Require Import ZArith NArith List Bool.
 From AF Require Import Base.Sx Py.Str Fix.Session Lemmas.SessionL Lemmas.SessionC04L Lemmas.SessionC11L.
+From Coq Require String.
+Import String.StringSyntax.
 Import ListNotations.
 Open Scope Z_scope.
 
@@ -55,8 +58,7 @@ Print Assumptions C11_refused_send_is_free.
 (* what _validate_integrity answers, by cases on BeginString / CompIDs / MsgSeqNum *)
 Theorem C11_integrity_cases : forall c m w,
   match validate_integrity c m w with
-  | VExc x => (get T8 (mtags m) = None /\ x = XTagNotFound)
-              \/ (exists v, get T34 (mtags m) = Some v /\ py_int v = None /\ x = XValue)
+  | VExc x => get T8 (mtags m) = None /\ x = XTagNotFound
   | VTrue => get T49 (mtags m) = None \/ get T56 (mtags m) = None
   | VStr code =>
       code <> [] /\
@@ -64,6 +66,7 @@ Theorem C11_integrity_cases : forall c m w,
        \/ (exists s t, get T49 (mtags m) = Some s /\ get T56 (mtags m) = Some t
                        /\ (~ (c_sender c = t /\ c_target c = s)
                            \/ get T34 (mtags m) = None
+                           \/ (exists v, get T34 (mtags m) = Some v /\ py_int v = None)
                            \/ exists n, get_int T34 m = inl n /\ n < nin w
                                         /\ mkind m <> KSeqReset /\ st w <> ST_AWAITING)))
   | VOk => exists s t n, get T49 (mtags m) = Some s /\ get T56 (mtags m) = Some t
@@ -73,7 +76,7 @@ Theorem C11_integrity_cases : forall c m w,
 Proof. exact validate_cases. Qed.
 Print Assumptions C11_integrity_cases.
 
-(* wrong CompIDs / missing or too-low MsgSeqNum with both CompIDs present: exactly one Logout carrying
+(* wrong CompIDs / missing, non-numeric or too-low MsgSeqNum with both CompIDs present: exactly one Logout carrying
    the reason, then dropped; no on_message, next_num_in and the inbound journal unchanged *)
 Theorem C11_integrity_logout : forall c m now w code,
   validate_integrity c m w = VStr code -> ST_NCE <= st w -> sendable w ->
@@ -118,6 +121,19 @@ Theorem C11_reachable_states : forall c h w,
 Proof. exact run_okstate. Qed.
 Print Assumptions C11_reachable_states.
 
+(* since the repair R3c RESENDREQ_HANDLING is transient: no operation of any history ends in it (a ResendRequest
+   that cannot be served - unparsable, beyond the last sent number, a journaled row carrying tag 43 - leaves the
+   connection ACTIVE, not stuck) *)
+Theorem C11_no_stuck_handling : forall c h w,
+  st w <> ST_HANDLING -> Forall (fun s => st (s_after s) <> ST_HANDLING) (run c w h).
+Proof. exact run_no_stuck_handling. Qed.
+Print Assumptions C11_no_stuck_handling.
+
+Example C11_unserved_resend_not_stuck :
+  st (final cfg0 w_acceptor [i_logon 1; OIn (inbound (S "2") 2 [(T7, S "9"); (T16, S "0")]) 0]) = ST_ACTIVE.
+Proof. exact unserved_resend_not_stuck. Qed.
+Print Assumptions C11_unserved_resend_not_stuck.
+
 (* D15: initiator, Logon sent, no reply yet: an application message is handed to on_message *)
 Theorem C11_initiator_app_before_logon_refuted :
   exists c w h m, prelogon w /\ apps (trace (run c w h)) = [m] /\ logons (trace (run c w h)) = [].
@@ -137,14 +153,25 @@ Theorem C11_acceptor_stuck_logon_refuted :
 Proof. exact acceptor_stuck_logon_refuted. Qed.
 Print Assumptions C11_acceptor_stuck_logon_refuted.
 
-(* D27 (new): a non-numeric MsgSeqNum (CompIDs correct): ValueError, nothing else happens *)
-Theorem C11_garbled_seqnum_refuted :
-  exists c w m now,
-    st w = ST_ACTIVE /\ get T49 (mtags m) = Some (c_target c) /\ get T56 (mtags m) = Some (c_sender c)
-    /\ (exists v, get T34 (mtags m) = Some v /\ py_int v = None)
-    /\ process_message c m now w = mkR (inr XValue) w [].
-Proof. exact garbled_seqnum_refuted. Qed.
-Print Assumptions C11_garbled_seqnum_refuted.
+(* D27 is repaired in the code: a non-numeric MsgSeqNum (BeginString and CompIDs correct) is an integrity failure
+   with a reason, so C11_integrity_logout applies to it: one Logout(58 = reason), dropped, nothing delivered,
+   next_num_in unchanged *)
+Theorem C11_garbled_seqnum_rejected : forall c m w v,
+  get T8 (mtags m) = Some (c_begin c) -> get T49 (mtags m) = Some (c_target c) ->
+  get T56 (mtags m) = Some (c_sender c) -> get T34 (mtags m) = Some v -> py_int v = None ->
+  validate_integrity c m w = VStr R_GARBLED.
+Proof. exact garbled_seqnum_rejected. Qed.
+Print Assumptions C11_garbled_seqnum_rejected.
+
+(* the former D27 witness, computed *)
+Example C11_garbled_seqnum_logout :
+  let w := final cfg0 w_acceptor [i_logon 1] in
+  let r := process_message cfg0 m_garbled 0 w in
+  st w = ST_ACTIVE /\ rv r = inl tt /\ st (rw r) = ST_DISC_BROKEN /\ nin (rw r) = nin w
+  /\ apps (re r) = [] /\ length (discs (re r)) = 1%nat
+  /\ map (fun wm => (mtype wm, get T58 (mtags wm))) (wires (re r)) = [(MT_LOGOUT, Some R_GARBLED)].
+Proof. exact garbled_seqnum_logout. Qed.
+Print Assumptions C11_garbled_seqnum_logout.
 
 Example C11_nonvacuous :
   prelogon w_acceptor
